@@ -4,7 +4,7 @@ CONSTANTS
   NetName = "robustirc.net"
   MaxN = 2
   Families = {"reg", "member", "mode", "talk", "oper", "services", "entry", "addr", "time"}
-  Prologues = {1, 2, 3, 4, 5, 6}
+  Prologues = {1, 2, 3, 4, 5, 6, 7}
 INVARIANT NoFailure
 ACTION_CONSTRAINT EmitEdge
 VIEW View
